@@ -3,7 +3,7 @@
    numpyro / jax.scipy / scipy in floating point: they enter as ORACLE TABLES, and normalisation is
    proved for EVERY table with the properties a pmf / cdf has, every size. *)
 From Coq Require Import QArith List Arith Bool.
-From MdpaxV Require Import Proofs.C13P Proofs.MultinomP.
+From MdpaxV Require Import Model.QFun Model.Hendrix Proofs.C13P Proofs.MultinomP Proofs.HendrixP.
 Import ListNotations.
 Open Scope Q_scope.
 
@@ -50,8 +50,39 @@ Theorem mirjalili_event_law_normalised : forall pm p q, pm <> [] -> qsum p == 1 
 Proof. exact event_law_normalised. Qed.
 Print Assumptions mirjalili_event_law_normalised.
 
-(* NOT proved here (stated in DESIGN.md 13.3): the Hendrix mass identity (validated numerically against the closed-form
-   truncation loss; open known finding) and that numpyro's log-gamma evaluation equals the coefficient below. *)
+(* Hendrix (units issued of A and of B; model = Model/Hendrix.v, a transliteration of _calculate_pu/_calculate_pz and
+   the four _get_probs_* cases over ORACLE tables pa, pb (demand pmfs), bin (binomial pmf)).
+   Identity: for every state (total stocks sa <= A, sb <= B) the probabilities of all events sum to
+   P(D_b < sb) + sum_{z <= D} pz[z, sb] ... *)
+Theorem hendrix_row_mass_identity : forall (pa pb : nat -> Q) (bin : nat -> nat -> Q) (D A B sa sb : nat),
+  (sa <= A)%nat -> (sb <= B)%nat -> (sa <= S D)%nat ->
+  hx_total pa pb bin D A B sa sb == fsum pb sb + fsum (hx_pz pa pb bin D sb) (S D).
+Proof. exact hx_total_identity. Qed.
+Print Assumptions hendrix_row_mass_identity.
+
+(* ... which is AT MOST P(D_b < D) whatever the demand laws are (pmf properties only): the mass the demand for B carries
+   at or beyond the truncation point D = max_useful_life * (max(order limits) + 2) is lost from EVERY row. So the property
+   "sums to one within 1e-4" FAILS for this problem whenever P(D_b >= D) > 1e-4 (e.g. order limits 3, useful life 2,
+   default Poisson mean 5: P(D_b >= 10) = 0.032): the open known finding, as a theorem about the model. *)
+Theorem hendrix_row_mass_at_most_untruncated : forall (pa pb : nat -> Q) (bin : nat -> nat -> Q) (D : nat),
+  (forall k, 0 <= pa k) -> (forall k, 0 <= pb k) -> (forall N, fsum pa N <= 1) ->
+  (forall u x, 0 <= bin u x) -> (forall x, fsum (fun u => bin u x) (S x) == 1) ->
+  forall A B sa sb, (sa <= A)%nat -> (sb <= B)%nat -> (sa <= S D)%nat -> (sb <= D)%nat ->
+  hx_total pa pb bin D A B sa sb <= fsum pb D.
+Proof. exact hx_total_le. Qed.
+Print Assumptions hendrix_row_mass_at_most_untruncated.
+
+(* non-vacuity / a concrete row that loses mass: geometric demand laws (1/2)^(k+1), substitution with probability 1/2,
+   D = 3: the row of total stocks (1, 1) sums to 217/256 <= P(D_b < 3) = 7/8 < 1 *)
+Example c13_hendrix_example :
+  let pa := fun k => qpow (1#2) (S k) in
+  let bin := fun u x => binom x u * qpow (1#2) x in
+  Qred (hx_total pa pa bin 3 1 1 1 1) = 217#256 /\ Qred (fsum pa 3) = 7#8 /\
+  map (fun x => Qred (fsum (fun u => bin u x) (S x))) [0; 1; 2; 3]%nat = [1; 1; 1; 1].
+Proof. vm_compute. repeat split; reflexivity. Qed.
+
+(* NOT proved: that scipy / jax.scipy / numpyro evaluate the Poisson, binomial, gamma and negative-binomial laws and the
+   multinomial coefficient (differential testing, C16). *)
 Example c13_multinomial_example :
   comps 2 3 = [[0;3];[1;2];[2;1];[3;0]]%nat /\
   map (fun r => Qred (mprob [1#4; 3#4] r)) (comps 2 3) = [27#64; 27#64; 9#64; 1#64] /\
